@@ -319,6 +319,16 @@ class QueryMixin:
         """equality conjuncts `s.col = <expr not depending on s or later sources>` usable for a hash lookup"""
         if cond is None or s.kind != 'table':
             return None
+        cache = getattr(s.node, '_plan', None)
+        if cache is None:
+            cache = s.node._plan = {}
+        ck = (id(cond), idx)
+        if ck in cache:
+            return cache[ck]
+        cache[ck] = res = self._plan_lookup_uncached(s, idx, srcs, cond, X, sc)
+        return res
+
+    def _plan_lookup_uncached(self, s: _Source, idx: int, srcs: List[_Source], cond, X, sc: Scope):
         conj: List[Any] = []
         _conjuncts(cond, conj)
         allowed = {x.alias for x in srcs[:idx]}
@@ -559,12 +569,19 @@ class QueryMixin:
                     raise SchemaError(f"Unknown column '{tb}.{c}' (1054)")
 
     def _exec_select_in(self, sel, X, sc: Scope, srcs, sink) -> Result:
-        if getattr(sel, '_plan', None) is None:
+        plan = getattr(sel, '_plan', None)
+        if plan is None:
             al = {a.lower() for _, a, _ in sel.items if a is not None}
             self.check_names([[e for e, _, _ in sel.items if not isinstance(e, A.Star)], sel.where,
                               [s.on_node for s in srcs if s.on_node is not None]], X, sc)
             self.check_names([sel.group_by, sel.having, [e for e, _ in (sel.order_by or [])]], X, sc, al)
-            sel._plan = True
+            wins: List[Any] = []
+            find_windows([e for e, _, _ in sel.items], wins)
+            plan = sel._plan = {
+                'grouped': bool(sel.group_by) or any(has_aggregate(e) for e, _, _ in sel.items) or has_aggregate(sel.having)
+                or has_aggregate([e for e, _ in (sel.order_by or [])]),
+                'windows': wins,
+            }
         items = self._expand_items(sel, sc, srcs)
         columns = [(name, tbl) for _, name, tbl, _, _ in items]
         fns = [f for f, _, _, _, _ in items]
@@ -575,10 +592,8 @@ class QueryMixin:
             if cn is not None and cn not in _seen:
                 _seen.add(cn)
                 alias_keys.append((i, cn))
-        grouped = bool(sel.group_by) or any(has_aggregate(e) for e, _, _ in sel.items) or has_aggregate(sel.having) \
-            or has_aggregate([e for e, _ in (sel.order_by or [])])
-        windows: List[Any] = []
-        find_windows([e for e, _, _ in sel.items], windows)
+        grouped = plan['grouped']
+        windows = plan['windows']
         order = sel.order_by
         ordf = None
         if order:
